@@ -135,7 +135,7 @@ def split_batch(path):
     return traces
 
 
-def validate_once(module, cfg, trace_path, timeout=900, xmx="4g"):
+def validate_once(module, cfg, trace_path, timeout=900, xmx="4g", raw=False):
     """One TLC run over a trace file. Returns dict(accepted, line, unmatched, laststate, invariant, out)."""
     meta = tempfile.mkdtemp(prefix="tv_", dir=WORK)
     env = dict(os.environ, TRACE=os.path.abspath(trace_path))
@@ -145,6 +145,11 @@ def validate_once(module, cfg, trace_path, timeout=900, xmx="4g"):
     shutil.rmtree(meta, ignore_errors=True)
     if rc == 124:
         raise ToolError("TLC timed out validating " + trace_path)
+    if raw:
+        m = None
+        for m in STAT_RE.finditer(out):
+            pass
+        return dict(out=out, states=int(m.group(2)) if m else 0)
     res = dict(accepted=False, line=None, unmatched=None, laststate=None, invariant=None, out=out, states=0,
                expected=None, kf=set())
     for mk in re.finditer(r'<<"KF", \{([^}]*)\}>>', out):
